@@ -76,6 +76,11 @@ def run(ctx):
         c11.run_c2s(ctx, PID, KINDS, 200, 80, notes_for=notes_for)
     else:
         c11.run_c2s(ctx, PID, KINDS, 5000, 1500, notes_for=notes_for)
+    # whole sessions (System.tla): timing properties edited on the simfile / a chart, the SSC version, then the chart's notes timed
+    from . import system_common as sysc
+    sessions, sverdict = sysc.run_sessions(ctx, 150 if ctx.quick else 3000, ctx.seed + 13, timing_bias=True)
+    sysc.judge(ctx, PID, sessions, sverdict, {"timenotes"}, "timing a chart's notes inside a session")
+    sysc.mc_system(ctx, PID, (sysc.MC_RUNS[PID][0] if ctx.quick else sysc.MC_RUNS[PID][1]), ops={"timenotes"})      # MC_System, focus "timing"
     ctx.exhaustive = True
     ctx.rule = ("one evaluation per hittable() query / time_notes call; S2C: every timing data of the bounded model; C2S: random + corpus "
                 "timing data x generated note data (routine, keysounded) x 3 options; non-trivial = timing data with a stop, delay or warp")
